@@ -9,15 +9,15 @@ from .. import env, zkfake
 LEVEL = 'exploration'
 RULE = ('the real sproc.appmonitor._run_sync loop (its ChildrenWatch / ExistingDataWatch watches on the in-memory ZooKeeper) '
         'runs 25-70 evaluations per history; time.sleep is rebound to "advance the virtual clock (1 s, or jumps of 30 s-2 h) '
-        'and apply the next scripted disturbances": instances dying, monitor count/policy changes (targets 0-12, fifo/lifo/'
+        'and apply the next scripted disturbances": instances dying, monitor count/policy changes (targets 0-12, and in one history of ten one application with a target of 101-250 - the schema admits 0..1000 - whose instances die by the dozen under a clock moving in small steps; fifo/lifo/'
         'unset; a count-only change keeps the configured policy), monitors created and deleted, the connection of the monitor '
         'dropping and coming back (SUSPENDED/CONNECTED, nothing reconfigured), and the REST boundary failing with each handled class (NotFound, BadRequest, '
-        'Validation) or an unhandled one, for creates and deletes, connections refused before anything is processed, and a reply '
+        'Validation) or an unhandled one or the API unreachable for all retries, for the next create of an application or for the one after 1-2 served ones, for creates and deletes, connections refused before anything is processed, and a reply '
         'lost after the request was processed, and instances of other applications exiting on their own while a request is in flight (the /scheduled watch fires in the middle of an evaluation; the evaluation is judged against the listing it started with), and an evaluation that runs between two statements of the /scheduled watch callback (LINE event local to the callback; the update concerns an application nobody monitors, so old and new listing agree on every monitored one). requests.post is replaced by a stand-in for the cell API that records what the '
         'server processes and dispatches to masterapi.create_apps / delete_apps; the real restclient (status handling, retry '
         'loop) runs above it. Oracle per evaluation and monitor from the recorded calls: '
-        'count requested <= target - current; <= floor of an independent token bucket (2*target/h, cap 2*target, reset on '
-        'reconfiguration, debit on success); on surplus exactly current-target instances deleted, oldest first (fifo/unset) '
+        'count requested (all create requests the API processed in the evaluation taken together) <= target - current; <= floor of an independent token bucket (2*target/h, cap 2*target, reset on '
+        'reconfiguration, debited with every create the API accepted and answered); on surplus exactly current-target instances deleted, oldest first (fifo/unset) '
         'or newest first (lifo) - the policy being the one the operator configured last, recorded by the harness; never create and delete for one application in one evaluation; no call for suspended '
         '(until the deadline) or deleted monitors; bounded progress: once faults stop and the budget is full, current == '
         'target within 2 evaluations. Non-trivial: a history with a handled failure (suspension), a scale-down and a '
@@ -27,7 +27,8 @@ ASSUMPTIONS = ['in-memory ZooKeeper fake; requests.post replaced (HTTP boundary;
                'alerts are written by the real alert.create into a temp dir']
 BUDGET = {'quick': (40, 30.0), 'thorough': (800, 240.0)}
 REQUIRED_REACH = {'*': ['evaluations', 'creates_ok', 'scale_down_calls', 'rate_limited', 'handled_failures', 'suspended_evaluations',
-                        'monitors_deleted', 'converged_histories']}
+                        'monitors_deleted', 'converged_histories', 'evaluations_creating_more_than_100_instances',
+                        'faults_hitting_a_later_request', 'rate_limited_with_target_above_100']}
 
 
 TOOL = 4
@@ -85,16 +86,19 @@ def run(ctx):
         context.GLOBAL.zk._conn = zk       # pylint: disable=protected-access
         alerts = tempfile.mkdtemp(prefix='vf-c20-')
         apps = ['proid.app%d' % i for i in range(rng.randint(1, 4))]
+        # one history in ten runs an application at scale: targets above 100 (the schema admits 0..1000), instances dying
+        # by the dozen, the clock moving in small steps so that a budget of hundreds of instances is what binds
+        large = apps[0] if rng.random() < 0.1 else None
         ref = {}          # name -> dict(count, policy, tokens, last)
         susp = {}         # name -> deadline
         calls = []        # calls of the current evaluation
-        fail_next = {}    # name -> exception kind for the next create
+        fail_next = {}    # name -> [create requests still served before the fault, kind of failure, was delayed]
         fail_delete = [0]
         refuse = [0]          # the next N connections are refused before anything is processed
         drop_reply = [False]  # the next processed create loses its reply
         die_mid = [False]     # instances of other applications exit while the next request is in flight
         n_eval = [0]
-        total = rng.randint(25, 70)
+        total = rng.randint(25, 70) if large is None else rng.randint(20, 36)
         kinds = []
         flags = dict(handled=False, scaledown=False, limited=False)
         quiet_from = total          # evaluations >= this index: no faults, budget refilled
@@ -188,7 +192,23 @@ def run(ctx):
                 return _Reply(200, {})
             name, _, q = path[len('/instance/'):].partition('?count=')
             k = int(q)
-            kind = fail_next.pop(name, None)
+            kind = None
+            armed = fail_next.get(name)
+            if armed is not None:
+                if armed[0] > 0:
+                    armed[0] -= 1           # the fault is armed for a later request: this one is served
+                    armed[2] = True
+                else:
+                    kind = armed[1]
+                    del fail_next[name]
+                    if armed[2]:
+                        ctx.count('faults_hitting_a_later_request')
+            if kind == 'unreachable':
+                # the API goes away before this request is processed and stays away for all its retries
+                refuse[0] = 6
+                ctx.count('connections_refused_before_processing')
+                calls.append(('create-failed:other', name, k))
+                raise requests.exceptions.ConnectionError('refused (injected): nothing was processed')
             if kind is not None:
                 calls.append(('create-failed:' + kind, name, k))
                 return _Reply({'notfound': 404, 'badrequest': 400, 'validation': 424}.get(kind, 500))
@@ -268,23 +288,30 @@ def run(ctx):
                 deletes = [c for c in cs if c[0].startswith('delete')]
                 # the REST client re-sends a request that was answered with a server error (nothing processed);
                 # at most one create and one delete per evaluation may have been processed
-                if len([c for c in creates if c[0] in ('create', 'create-dropped')]) > 1 or len([c for c in deletes if c[0] == 'delete']) > 1 or \
+                # (several creates of one evaluation are judged together below: what the API processed so far counts
+                # against what is missing and against the budget)
+                if len([c for c in deletes if c[0] == 'delete']) > 1 or \
                         len([c for c in creates if c[0] != 'create' and not c[0].endswith(':other')]) > 1:
                     viol('repeated-call-in-one-evaluation', '%s: %r' % (name, cs))
                 if r['count'] > len(cur):
                     needed = r['count'] - len(cur)
                     budget = math.floor(r['tokens'] + 1e-9)
+                    budget_at_start = r['tokens']
                     if deletes:
                         viol('delete-while-below-target', '%s target %d current %d: %r' % (name, r['count'], len(cur), deletes))
+                    asked = 0          # instances the API processed for this monitor earlier in this evaluation
                     for kind, k in creates:
-                        if k > needed:
-                            viol('overshoot:more-than-missing', '%s: asked %d, target %d, current %d' % (name, k, r['count'], len(cur)))
-                        if k > budget:
-                            viol('overshoot:rate-budget', '%s: asked %d with an independent budget of %.4f tokens (target %d)' % (
-                                name, k, r['tokens'], r['count']),
-                                 witness=dict(tokens=r['tokens'], asked=k, target=r['count'], current=len(cur)))
+                        if asked + k > needed:
+                            viol('overshoot:more-than-missing', '%s: asked %d%s, target %d, current %d' % (
+                                name, k, ' after %d in the same evaluation' % asked if asked else '', r['count'], len(cur)))
+                        if asked + k > budget:
+                            viol('overshoot:rate-budget', '%s: asked %d%s with an independent budget of %.4f tokens at the start of the evaluation (target %d)' % (
+                                name, k, ' after %d in the same evaluation' % asked if asked else '', budget_at_start, r['count']),
+                                 witness=dict(tokens=budget_at_start, asked=k, asked_before=asked, target=r['count'], current=len(cur)))
                         if k <= 0:
                             viol('non-positive-request', '%s: asked %d' % (name, k))
+                        if kind in ('create', 'create-dropped'):
+                            asked += k
                         if kind == 'create':
                             r['tokens'] -= k
                             ctx.count('creates_ok')
@@ -297,6 +324,8 @@ def run(ctx):
                             flags['handled'] = True
                         else:
                             ctx.count('unhandled_failures')
+                    if asked > 100:
+                        ctx.count('evaluations_creating_more_than_100_instances')
                     if not creates:
                         if name in maybe:
                             ctx.count('maybe_suspended_skipped')
@@ -307,6 +336,8 @@ def run(ctx):
                             ctx.count('rounding_boundary_waits')
                         else:
                             ctx.count('rate_limited')
+                            if r['count'] > 100:
+                                ctx.count('rate_limited_with_target_above_100')
                             flags['limited'] = True
                 elif r['count'] < len(cur):
                     surplus = len(cur) - r['count']
@@ -357,14 +388,21 @@ def run(ctx):
                     if not violated[0]:
                         ctx.count('converged_histories')
                 return
-            clock.advance(rng.choice([1, 1, 1, 1, 5, 30, 120, 300, 301, 1800, 3600, 7200]) if rng.random() < 0.35 else 1.0)
-            for _ in range(rng.choice([0, 1, 1, 2])):
+            jumps = [1, 1, 1, 1, 5, 30, 120, 300, 301, 1800, 3600, 7200] if large is None else [1, 1, 1, 1, 5, 30, 120, 300, 301]
+            clock.advance(rng.choice(jumps) if rng.random() < 0.35 else 1.0)
+            for _ in range(rng.choice([0, 1, 1, 2] if large is None else [1, 2, 2, 3])):
                 op = rng.choice(['die', 'die', 'die', 'count', 'count', 'policy', 'delmon', 'newmon', 'fail', 'fail', 'faildel', 'flap', 'refuse', 'drop', 'midreq', 'midreq', 'race', 'race', 'race-monitor', 'race-monitor', 'purge-and-fail'])
                 name = rng.choice(apps)
+                if large is not None and rng.random() < 0.6:
+                    name = large
+                    op = rng.choice(['die', 'die', 'die', 'die', 'fail', 'fail', 'fail', 'count', 'drop', 'refuse', 'policy'])
                 if op == 'die':
                     cur = scheduled_of(name)
                     if cur:
-                        masterapi.delete_apps(admin, rng.sample(cur, rng.randint(1, len(cur))), 'test')
+                        masterapi.delete_apps(admin, cur if name == large and rng.random() < 0.6 else rng.sample(cur, rng.randint(1, len(cur))), 'test')
+                elif op == 'count' and name == large:
+                    if rng.random() < 0.3:
+                        configure(name, rng.choice([0, 101, 120, 250]), None)
                 elif op == 'count':
                     configure(name, rng.choice([0, 1, 2, 3, 5, 8, 12]), None)
                 elif op == 'policy' and name in ref:
@@ -374,7 +412,8 @@ def run(ctx):
                 elif op == 'newmon' and name not in ref:
                     configure(name, rng.choice([1, 2, 4, 6]), rng.choice([None, 'fifo', 'lifo']))
                 elif op == 'fail':
-                    fail_next[name] = rng.choice(['notfound', 'badrequest', 'validation', 'other'])
+                    # the create request that fails is the next one for this application, or the one after 1-2 served ones
+                    fail_next[name] = [rng.choice([0, 0, 1, 1, 2]), rng.choice(['notfound', 'badrequest', 'validation', 'other', 'unreachable']), False]
                 elif op == 'faildel':
                     fail_delete[0] = 1
                 elif op == 'refuse':
@@ -399,7 +438,7 @@ def run(ctx):
                         cur_ = scheduled_of(other)
                         if cur_ and len(cur_) >= ref[other]['count']:
                             masterapi.delete_apps(admin, cur_[:len(cur_) - ref[other]['count'] + 1], 'test')
-                        fail_next[other] = rng.choice(['notfound', 'badrequest', 'validation'])
+                        fail_next[other] = [0, rng.choice(['notfound', 'badrequest', 'validation']), False]
                         ctx.count('suspended_monitor_deleted_while_another_is_about_to_fail')
                 elif op == 'flap':
                     # the monitor's connection drops and comes back: no monitor was reconfigured
@@ -464,7 +503,9 @@ def run(ctx):
         quiet_from = total
         try:
             for name in apps:
-                if rng.random() < 0.8:
+                if name == large:
+                    configure(name, rng.choice([101, 110, 130]), rng.choice([None, None, 'fifo', 'lifo']))
+                elif rng.random() < 0.8:
                     configure(name, rng.choice([1, 2, 3, 5, 8, 12]), rng.choice([None, None, 'fifo', 'lifo']))
                 if rng.random() < 0.5:
                     masterapi.create_apps(admin, name, {'memory': '1G'}, rng.randint(1, 14), 'test')
